@@ -33,6 +33,15 @@ CK = "checkpoint.json"
 CKNAME = [CK]      # the configured checkpoint name (relative to the scratch directory)
 LINK = [False]     # True: the configured name is a symbolic link run/checkpoint.json -> ../scratch/chain1.json
 LINK_NAME, LINK_TARGET = "run/checkpoint.json", "scratch/chain1.json"
+# other spellings of the configured name ({ABS} = the scratch directory itself): the siblings must be derived from the
+# name as configured whatever it looks like
+NAME_FORMS = ["ck pt \u00fc.json", "deep/er/checkpoint.json", "./checkpoint.json", "{ABS}/checkpoint.json",
+              "state.old", "state.new", "checkpoint"]
+
+
+def ckname(d) -> str:
+    """the checkpoint name handed to the writer when the scratch directory is d"""
+    return CKNAME[0].replace("{ABS}", str(d))
 
 
 _PAY = {}
@@ -65,6 +74,8 @@ def params(gen: int):
     from torchtree.core.parameter import Parameter
 
     n = (8 - gen) if VARIANT[0] == 0 else (1 + gen)
+    if VARIANT[0] == 2:  # a payload of several hundred kB: many write() system calls per checkpoint
+        n = 30000 + gen
     return [
         Parameter("p", torch.tensor([float(gen) + 0.125 * i for i in range(max(n, 1))], dtype=torch.float64)),
         Parameter("q", torch.tensor([[gen, gen + 1]], dtype=torch.int64)),
@@ -78,7 +89,8 @@ def materialise(d: Path, st: str, gen_of: dict):
         (d / "run").mkdir(exist_ok=True)
         (d / "scratch").mkdir(exist_ok=True)
     for ch, p in zip(st, PATHS):
-        f = d / (CKNAME[0] + SUFF[p])
+        f = d / (ckname(d) + SUFF[p])
+        f.parent.mkdir(parents=True, exist_ok=True)
         if os.path.lexists(f):
             f.unlink()
         if ch == "A":
@@ -96,7 +108,7 @@ def classify(d: Path, max_gen: int):
     wholes = {payload(g): g for g in range(0, max_gen + 1)}
     st, gens = "", {}
     for p in PATHS:
-        f = d / (CKNAME[0] + SUFF[p])
+        f = d / (ckname(d) + SUFF[p])
         if not os.path.lexists(f):
             st += "A"
             continue
@@ -262,9 +274,9 @@ def _caller_obj(kind: str, gen: int):
              "parameters": {"loc": 0.0, "scale": 1.0}},
             {"id": "mcmc", "type": "torchtree.inference.mcmc.mcmc.MCMC", "joint": "joint", "iterations": 3,
              "operators": [{"id": "op", "type": "torchtree.inference.mcmc.operator.ScalerOperator", "parameters": ["x"],
-                            "weight": 1.0, "scaler": 0.5}], "checkpoint": CKNAME[0]},
+                            "weight": 1.0, "scaler": 0.5}], "checkpoint": ckname(os.getcwd())},
             {"id": "opt", "type": "torchtree.optim.optimizer.Optimizer", "algorithm": "torch.optim.SGD",
-             "options": {"lr": 0.5}, "loss": "joint", "parameters": ["x"], "iterations": 3, "checkpoint": CKNAME[0]},
+             "options": {"lr": 0.5}, "loss": "joint", "parameters": ["x"], "iterations": 3, "checkpoint": ckname(os.getcwd())},
         ]
         dic = {}
         for o in spec:
@@ -276,12 +288,12 @@ def _caller_obj(kind: str, gen: int):
         from torchtree.optim.optimizer import Optimizer
 
         opt = torch.optim.SGD([p.tensor for p in ps[:1]], lr=0.5)
-        o = Optimizer("opt", ps, None, opt, 10, checkpoint=CKNAME[0])
+        o = Optimizer("opt", ps, None, opt, 10, checkpoint=ckname(os.getcwd()))
         o._epoch = gen
         return o
     from torchtree.inference.mcmc.mcmc import MCMC
 
-    m = MCMC("mcmc", None, [], 10, checkpoint=CKNAME[0])
+    m = MCMC("mcmc", None, [], 10, checkpoint=ckname(os.getcwd()))
     m.parameters = ps
     m._epoch = gen
     return m
@@ -332,7 +344,7 @@ def run_write_strace(d: Path, gen: int, when):
 
             try:
                 if WRITER[0] == "save_parameters":
-                    pu.save_parameters(CKNAME[0], params(gen))
+                    pu.save_parameters(ckname(d), params(gen))
                 else:
                     _caller_write(WRITER[0], gen)
                 os.write(w, b"END")
@@ -384,14 +396,19 @@ def run_write_strace(d: Path, gen: int, when):
     return calls, data.decode()
 
 
-def explore_syscalls(ck: Check, writer: str, states, tmp_root: Path, worst: list, depth: int):
-    """syscall-level crash enumeration (strace fault injection) with the property's predicate only"""
+def explore_syscalls(ck: Check, writer: str, states, tmp_root: Path, worst: list, depth: int, variant: int = 0,
+                     sample_writes: bool = False):
+    """syscall-level crash enumeration (strace fault injection) with the property's predicate only;
+    sample_writes: of the write() invocations only the first two, the middle one and the last two are crash points
+    (large payloads make hundreds of them)"""
     import shutil as _sh
 
     if _sh.which("strace") is None:
         ck.notes.append("strace not available: syscall-level crash enumeration skipped")
         return
-    WRITER[0], VARIANT[0] = writer, 0
+    WRITER[0], VARIANT[0] = writer, variant
+    form = CKNAME[0] if CKNAME[0] not in (CK, LINK_NAME) else None
+    tag = ("-symlink" if LINK[0] else "") + ("-nameform" if form else "") + ("-large" if variant == 2 else "")
     frontier = []
     for st in states:
         d0 = Path(tempfile.mkdtemp(prefix="y-", dir=tmp_root))
@@ -409,16 +426,21 @@ def explore_syscalls(ck: Check, writer: str, states, tmp_root: Path, worst: list
             for c in calls:  # crash before the i-th invocation of each traced call, in program order
                 count[c] = count.get(c, 0) + 1
                 points.append((c, count[c]))
+            if sample_writes:
+                nw = count.get("write", 0)
+                keep = {1, 2, (nw + 1) // 2, nw - 1, nw}
+                points = [pt for pt in points if pt[0] != "write" or pt[1] in keep]
             for n, pt in enumerate(points + [None], 1):
                 d2 = _clone(d, tmp_root)
                 run_write_strace(d2, gen, pt)
                 got_st, _g = classify(d2, gen + 1)
                 h2 = hist + [{"from": st, "kill_before_syscall": list(pt) if pt else None, "position": n,
-                              "writer": writer, "variant": 0, "mode": "strace", "symlinked_name": LINK[0]}]
-                ck.case(key=("sys", writer, LINK[0], st, tuple(str(h.get("kill_before_syscall")) for h in h2)),
+                              "writer": writer, "variant": variant, "mode": "strace", "symlinked_name": LINK[0],
+                              "name_form": form}]
+                ck.case(key=("sys", writer, LINK[0], form, variant, st, tuple(str(h.get("kill_before_syscall")) for h in h2)),
                         sample={"writer": writer, "initial": st, "kill_before_syscall": pt, "syscalls": calls,
                                 "dir_after": got_st} if level == 1 and n == 2 else None,
-                        bucket=f"{writer}/syscall{'-symlink' if LINK[0] else ''}/depth{level}")
+                        bucket=f"{writer}/syscall{tag}/depth{level}")
                 if not safe_pred(got_st):
                     worst.append((h2, got_st))
                 if level < depth and got_st not in seen and pt is not None:
@@ -627,6 +649,28 @@ def run(ck: Check):
                 explore_syscalls(ck, writer, ["CAA"], tmp_root, worst, 1)
             except Exception as e:  # noqa: BLE001
                 ck.mismatch("from_json-built writer could not be driven", {"writer": writer, "error": f"{type(e).__name__}: {e}"})
+        # other spellings of the configured name (spaces / non-ASCII, nested relative, ./, absolute, names that
+        # themselves end in .old / .new, no extension): from the state "all three exist" and from the state a crash
+        # between the two renames leaves (name absent)
+        try:
+            for i, form in enumerate(NAME_FORMS):
+                CKNAME[0] = form
+                writers = ("save_parameters", "MCMC.from_json", "Optimizer.from_json")
+                for writer in (writers if ck.thorough() else (writers[i % 3],)):
+                    try:
+                        explore_syscalls(ck, writer, ["CCC", "ACC"], tmp_root, worst, 2 if ck.thorough() else 1)
+                    except Exception as e:  # noqa: BLE001
+                        ck.mismatch("writer with an unusual checkpoint name could not be driven",
+                                    {"writer": writer, "name": form, "error": f"{type(e).__name__}: {e}"})
+        finally:
+            CKNAME[0] = CK
+        # a payload of several hundred kB (dozens of write() calls per checkpoint)
+        for writer in (("save_parameters", "MCMC.save_full_state") if ck.thorough() else ("save_parameters",)):
+            try:
+                explore_syscalls(ck, writer, ["CCC", "ACC"] if ck.thorough() else ["CCC"], tmp_root, worst,
+                                 2 if ck.thorough() else 1, variant=2, sample_writes=True)
+            except Exception as e:  # noqa: BLE001
+                ck.mismatch("writer with a large payload could not be driven", {"writer": writer, "error": f"{type(e).__name__}: {e}"})
     finally:
         WRITER[0], VARIANT[0] = "save_parameters", 0
         LINK[0], CKNAME[0] = False, CK
@@ -679,6 +723,8 @@ def replay(path: str) -> int:
     VARIANT[0] = hist[0].get("variant", 0)
     if hist[0].get("symlinked_name"):
         LINK[0], CKNAME[0] = True, LINK_NAME
+    elif hist[0].get("name_form"):
+        CKNAME[0] = hist[0]["name_form"]
     try:
         materialise(d, hist[0]["from"], {"name": 1, "new": 0, "old": 0})
         gen = 2
